@@ -318,3 +318,475 @@ TARGETS = {
     'T20vr': {'file': 'valuerep.py', 'build': build_vr, 'imports': ['HdVerif.Model.VR']},
     'T20uid': {'file': 'uid.py', 'build': build_uid},
 }
+
+
+# ----------------------------------------------------------------------------------------------- alias flow (T20alias_*)
+VIEW_METHODS = {'reshape', 'view', 'squeeze', 'transpose', 'swapaxes', 'ravel', 'byteswap', 'newbyteorder', 'get', 'setdefault',
+                '__getitem__', 'values', 'items', 'keys', 'iterall', 'elements', 'data_element', 'group_dataset'}
+VIEW_FUNCS = {'np.asarray', 'np.asanyarray', 'np.ascontiguousarray', 'np.asfortranarray', 'np.squeeze', 'np.moveaxis',
+              'np.transpose', 'np.reshape', 'np.atleast_1d', 'np.atleast_2d', 'np.atleast_3d', 'np.broadcast_to',
+              'np.expand_dims', 'np.swapaxes', 'np.ravel', 'getattr', 'iter', 'next', 'enumerate', 'zip', 'reversed'}
+MUTATORS = {'append', 'extend', 'insert', 'add', 'add_new', 'pop', 'remove', 'clear', 'sort', 'reverse', 'update', 'fill',
+            'itemset', 'put', 'resize', 'setflags', '__setitem__', '__delitem__', '__setattr__', '__delattr__', 'popitem',
+            'decompress', 'compress', 'convert_pixel_data', 'walk', 'remove_private_tags', 'ensure_file_meta',
+            'fix_meta_info', 'update_raw_element', 'set_pixel_data'}
+MUTATOR_FUNCS = {'setattr', 'delattr', 'np.copyto', 'np.put', 'np.place', 'np.putmask'}
+KEEPING_FUNCS = {'list', 'tuple', 'set', 'dict', 'frozenset', 'cls', 'sorted'}     # results hold references to their arguments
+MAX_CONDS = 11
+
+FRESH = ('fresh',)
+
+
+def _lean_e(e):
+    if e[0] == 'var':
+        return f'(.var {e[1]})'
+    if e[0] == 'view':
+        return f'(.view {_lean_e(e[1])})'
+    return '.fresh'
+
+
+def _lean_s(st):
+    k = st[0]
+    if k == 'assign':
+        return f'.assign {st[1]} {_lean_e(st[2])}'
+    if k == 'write':
+        return f'.write {_lean_e(st[1])}'
+    if k == 'deep':
+        return f'.writeDeep {_lean_e(st[1])}'
+    if k == 'link':
+        return f'.link {_lean_e(st[1])} {_lean_e(st[2])}'
+    if k == 'ite':
+        return f'.ite {st[1]} [{", ".join(_lean_s(x) for x in st[2])}] [{", ".join(_lean_s(x) for x in st[3])}]'
+    if k == 'ret':
+        return f'.ret {_lean_e(st[1])}'
+    return '.raise'
+
+
+def _root_var(e):
+    while e[0] == 'view':
+        e = e[1]
+    return e[1] if e[0] == 'var' else None
+
+
+def _is_fresh(e):
+    while e[0] == 'view':
+        e = e[1]
+    return e[0] == 'fresh'
+
+
+class _Alias:
+    """Abstracts one function body into a program of HdVerif.Aliasing (see Model/Aliasing.lean)."""
+
+    def __init__(self, fn):
+        self.fn = fn
+        params = [a.arg for a in fn.args.args + fn.args.kwonlyargs if a.arg not in ('self', 'cls')]
+        self.params = params
+        self.vars = {p: i for i, p in enumerate(params)}
+        self.has_copy = 'copy' in params
+        self.conds = ['copy']            # condition 0 is reserved for the copy flag
+        self.compenv = {}
+
+    def var(self, name):
+        if name not in self.vars:
+            self.vars[name] = len(self.vars)
+        return self.vars[name]
+
+    def tmp(self):
+        return self.var(f'%tmp{len(self.vars)}')
+
+    def cond(self, text):
+        self.conds.append(text)
+        return len(self.conds) - 1
+
+    @staticmethod
+    def is_converter(call):
+        f = call.func
+        name = f.attr if isinstance(f, ast.Attribute) else (f.id if isinstance(f, ast.Name) else '')
+        if name in ('from_dataset', 'from_sequence'):
+            return 'public'
+        if name.startswith('_from_dataset') or name.startswith('_from_sequence'):
+            return 'private'
+        return None
+
+    def pack(self, pre, parts):
+        """a new container holding references to `parts`"""
+        parts = [e for e in parts if not _is_fresh(e)]
+        if not parts:
+            return FRESH
+        t = self.tmp()
+        pre.append(('assign', t, FRESH))
+        for e in parts:
+            pre.append(('link', ('var', t), e))
+        return ('var', t)
+
+    # ---- expressions: returns (prefix statements, E)
+    def expr(self, node):
+        pre = []
+        if node is None:
+            return pre, FRESH
+        if isinstance(node, ast.Name):
+            if node.id in self.compenv:
+                return pre, self.compenv[node.id]
+            if node.id in self.vars:
+                return pre, ('var', self.vars[node.id])
+            return pre, FRESH
+        if isinstance(node, ast.Attribute):
+            p, b = self.expr(node.value)
+            return p, ('view', b)
+        if isinstance(node, ast.Subscript):
+            p, b = self.expr(node.value)
+            p2, _ = self.expr(node.slice)
+            return p + p2, ('view', b)
+        if isinstance(node, ast.Starred):
+            return self.expr(node.value)
+        if isinstance(node, (ast.Tuple, ast.List, ast.Set)):
+            parts = []
+            for el in node.elts:
+                p, e = self.expr(el)
+                pre += p
+                parts.append(e)
+            return pre, self.pack(pre, parts)
+        if isinstance(node, ast.Dict):
+            parts = []
+            for el in list(node.keys) + list(node.values):
+                if el is not None:
+                    p, e = self.expr(el)
+                    pre += p
+                    parts.append(e)
+            return pre, self.pack(pre, parts)
+        if isinstance(node, ast.IfExp):
+            pt, _ = self.expr(node.test)
+            pa, a = self.expr(node.body)
+            pb, b = self.expr(node.orelse)
+            t = self.tmp()
+            c, swap = self.test(node.test)
+            br_t = pa + [('assign', t, a)]
+            br_e = pb + [('assign', t, b)]
+            if swap:
+                br_t, br_e = br_e, br_t
+            return pt + [('ite', c, br_t, br_e)], ('var', t)
+        if isinstance(node, ast.Call):
+            fname = ast.unparse(node.func)
+            args = list(node.args)
+            kind = self.is_converter(node)
+            if kind is not None and args:
+                pa, a = self.expr(args[0])
+                for extra in args[1:] + [k.value for k in node.keywords if k.arg != 'copy']:
+                    pe, _ = self.expr(extra)
+                    pa += pe
+                ck = [k.value for k in node.keywords if k.arg == 'copy']
+                if kind == 'private' and not ck:
+                    return pa + [('deep', a)], a           # in-place helper: converts and returns its argument
+                if not ck or (isinstance(ck[0], ast.Constant) and ck[0].value is True):
+                    return pa, FRESH
+                if isinstance(ck[0], ast.Constant) and ck[0].value is False:
+                    return pa + [('deep', a)], a
+                if isinstance(ck[0], ast.Name) and ck[0].id == 'copy' and self.has_copy:
+                    t = self.tmp()
+                    return pa + [('ite', 0, [('assign', t, FRESH)], [('deep', a), ('assign', t, a)])], ('var', t)
+                raise Unsupported(f'{self.fn.name}: converter call with copy={ast.unparse(ck[0])}')
+            vals = []
+            for a in args + [k.value for k in node.keywords]:
+                pe, e = self.expr(a)
+                pre += pe
+                vals.append(e)
+            if fname in ('deepcopy', 'copy.deepcopy'):
+                return pre, FRESH
+            if fname in ('cast', 'typing.cast') and len(args) == 2:
+                return pre, vals[1]
+            if fname in VIEW_FUNCS and args:
+                return pre, ('view', vals[0])
+            if fname in MUTATOR_FUNCS and args:
+                pre.append(('write', vals[0]))
+                for e in vals[1:]:
+                    if not _is_fresh(e):
+                        pre.append(('link', vals[0], e))
+                return pre, FRESH
+            if isinstance(node.func, ast.Attribute):
+                pr, recv = self.expr(node.func.value)
+                pre += pr
+                if node.func.attr in MUTATORS:
+                    pre.append(('write', recv))
+                    for e in vals:
+                        if not _is_fresh(e):
+                            pre.append(('link', recv, e))
+                    return pre, FRESH
+                if node.func.attr in VIEW_METHODS:
+                    return pre, ('view', recv)
+            last = fname.split('.')[-1]
+            if last[:1].isupper() or last in KEEPING_FUNCS:
+                return pre, self.pack(pre, vals)          # a constructor keeps references to what it is given
+            return pre, FRESH
+        if isinstance(node, (ast.ListComp, ast.SetComp, ast.GeneratorExp, ast.DictComp)):
+            saved = dict(self.compenv)
+            body = []
+            for g in node.generators:
+                pi, it = self.expr(g.iter)
+                body += pi
+                for n in ast.walk(g.target):
+                    if isinstance(n, ast.Name):
+                        self.compenv[n.id] = ('view', it)
+                for cnd in g.ifs:
+                    pc, _ = self.expr(cnd)
+                    body += pc
+            elts = [node.key, node.value] if isinstance(node, ast.DictComp) else [node.elt]
+            t = self.tmp()
+            pre.append(('assign', t, FRESH))
+            for el in elts:
+                pe, e = self.expr(el)
+                body += pe
+                if not _is_fresh(e):
+                    body.append(('link', ('var', t), e))
+            self.compenv = saved
+            if body:      # executed zero or more times
+                c = self.cond('comprehension: ' + ast.unparse(node)[:60])
+                pre.append(('ite', c, body, []))
+            return pre, ('var', t)
+        if isinstance(node, ast.NamedExpr):
+            p, e = self.expr(node.value)
+            return p + [('assign', self.var(node.target.id), e)], e
+        for ch in ast.iter_child_nodes(node):       # arithmetic, comparisons, constants, f-strings: a new value
+            if isinstance(ch, ast.expr):
+                pe, _ = self.expr(ch)
+                pre += pe
+        return pre, FRESH
+
+    def test(self, node):
+        """-> (condition index, swapped?)"""
+        if isinstance(node, ast.Name) and node.id == 'copy' and self.has_copy:
+            return 0, False
+        if isinstance(node, ast.UnaryOp) and isinstance(node.op, ast.Not) and isinstance(node.operand, ast.Name) \
+                and node.operand.id == 'copy' and self.has_copy:
+            return 0, True
+        return self.cond(ast.unparse(node)[:80]), False
+
+    # ---- statements
+    def assign_to(self, target, e, out):
+        if isinstance(target, ast.Name):
+            out.append(('assign', self.var(target.id), e))
+        elif isinstance(target, (ast.Tuple, ast.List)):
+            for el in target.elts:
+                self.assign_to(el, e if _is_fresh(e) else ('view', e), out)
+        elif isinstance(target, (ast.Attribute, ast.Subscript)):
+            p, b = self.expr(target.value)
+            out += p
+            out.append(('write', b))
+            if not _is_fresh(e):
+                out.append(('link', b, e))
+        elif isinstance(target, ast.Starred):
+            self.assign_to(target.value, e, out)
+        else:
+            raise Unsupported(f'{self.fn.name}: assignment target {ast.unparse(target)}')
+
+    def block(self, stmts, top=False):
+        out = []
+        for st in stmts:
+            if isinstance(st, ast.Expr):
+                if isinstance(st.value, ast.Constant):
+                    continue
+                p, _ = self.expr(st.value)
+                out += p
+            elif isinstance(st, ast.Assign):
+                p, e = self.expr(st.value)
+                out += p
+                for t in st.targets:
+                    self.assign_to(t, e, out)
+            elif isinstance(st, ast.AnnAssign):
+                if st.value is not None:
+                    p, e = self.expr(st.value)
+                    out += p
+                    self.assign_to(st.target, e, out)
+            elif isinstance(st, ast.AugAssign):
+                p, v = self.expr(st.value)
+                out += p
+                if isinstance(st.target, ast.Name):
+                    _, e = self.expr(st.target)
+                    out.append(('write', e))          # in place for arrays / lists
+                    if not _is_fresh(v) and isinstance(st.op, ast.Add):
+                        out.append(('link', e, v))   # list += items
+                else:
+                    p2, b = self.expr(st.target.value)
+                    out += p2
+                    out.append(('write', b))
+            elif isinstance(st, ast.Delete):
+                for t in st.targets:
+                    if isinstance(t, (ast.Attribute, ast.Subscript)):
+                        p, b = self.expr(t.value)
+                        out += p
+                        out.append(('write', b))
+            elif isinstance(st, ast.If):
+                pt, _ = self.expr(st.test)
+                out += pt
+                bt = self.block(st.body)
+                be = self.block(st.orelse)
+                if not bt and not be:
+                    continue
+                c, swap = self.test(st.test)
+                if swap:
+                    bt, be = be, bt
+                out.append(('ite', c, bt, be))
+            elif isinstance(st, (ast.For, ast.AsyncFor, ast.While)):
+                body = []
+                if not isinstance(st, ast.While):
+                    p, it = self.expr(st.iter)
+                    out += p
+                    self.assign_to(st.target, ('view', it), body)
+                else:
+                    p, _ = self.expr(st.test)
+                    out += p
+                body += self.block(st.body)
+                c = self.cond('loop: ' + ast.unparse(st).split('\n')[0][:70])
+                out.append(('ite', c, body, []))      # the body runs zero or more times; one pass abstracts them
+                out += self.block(st.orelse)
+            elif isinstance(st, (ast.With, ast.AsyncWith)):
+                for it in st.items:
+                    p, e = self.expr(it.context_expr)
+                    out += p
+                    if it.optional_vars is not None:
+                        self.assign_to(it.optional_vars, e, out)
+                out += self.block(st.body)
+            elif isinstance(st, ast.Try):
+                out += self.block(st.body)
+                for h in st.handlers:
+                    hb = self.block(h.body)
+                    if hb:
+                        c = self.cond('except ' + (ast.unparse(h.type) if h.type else ''))
+                        out.append(('ite', c, hb, []))
+                out += self.block(st.orelse)
+                out += self.block(st.finalbody)
+            elif isinstance(st, ast.Return):
+                p, e = self.expr(st.value)
+                out += p
+                out.append(('ret', e))
+            elif isinstance(st, ast.Raise):
+                if top:
+                    out.append(('raise',))
+                # a conditional refusal only removes behaviours; the theorems quantify over the continuing ones
+            elif isinstance(st, (ast.Pass, ast.Assert, ast.Import, ast.ImportFrom, ast.Global, ast.Nonlocal, ast.Break,
+                                 ast.Continue)):
+                continue
+            else:
+                raise Unsupported(f'{self.fn.name}: statement {type(st).__name__}')
+        return out
+
+    # ---- clean-up: dead bindings, identical branches, dense condition numbers
+    @staticmethod
+    def _used(prog, used):
+        for st in prog:
+            k = st[0]
+            if k == 'assign':
+                if st[1] in used:
+                    v = _root_var(st[2])
+                    if v is not None:
+                        used.add(v)
+            elif k in ('write', 'deep', 'ret'):
+                v = _root_var(st[1])
+                if v is not None:
+                    used.add(v)
+            elif k == 'link':
+                for e in st[1:]:
+                    v = _root_var(e)
+                    if v is not None:
+                        used.add(v)
+            elif k == 'ite':
+                _Alias._used(st[2], used)
+                _Alias._used(st[3], used)
+
+    @staticmethod
+    def _prune(prog, used):
+        out = []
+        for st in prog:
+            k = st[0]
+            if k == 'assign' and st[1] not in used:
+                continue
+            if k in ('write', 'deep') and _is_fresh(st[1]):
+                continue                       # writing a value nobody else can see
+            if k == 'link' and (_is_fresh(st[1]) or _is_fresh(st[2])):
+                continue
+            if k == 'ite':
+                t, e = _Alias._prune(st[2], used), _Alias._prune(st[3], used)
+                if t == e:
+                    out += t
+                else:
+                    out.append(('ite', st[1], t, e))
+                continue
+            out.append(st)
+        return out
+
+    def program(self):
+        prog = self.block(strip_doc(self.fn.body), top=True)
+        while True:
+            used = set()
+            n = -1
+            while n != len(used):
+                n = len(used)
+                self._used(prog, used)
+            new = self._prune(prog, used)
+            if new == prog:
+                break
+            prog = new
+        # dense condition numbers
+        order = []
+
+        def collect(p):
+            for st in p:
+                if st[0] == 'ite':
+                    if st[1] != 0 and st[1] not in order:
+                        order.append(st[1])
+                    collect(st[2])
+                    collect(st[3])
+        collect(prog)
+        remap = {0: 0, **{c: i + 1 for i, c in enumerate(order)}}
+
+        def ren(p):
+            return [('ite', remap[st[1]], ren(st[2]), ren(st[3])) if st[0] == 'ite' else st for st in p]
+        prog = ren(prog)
+        self.cond_texts = ['copy'] + [self.conds[c] for c in order]
+        if len(self.cond_texts) > MAX_CONDS:
+            raise Unsupported(f'{self.fn.name}: {len(self.cond_texts)} relevant conditions (limit {MAX_CONDS})')
+        return prog
+
+
+def _functions(tree):
+    """(qualified name, FunctionDef) of every converter classmethod and of the array helpers in one module"""
+    out = []
+    for node in tree.body:
+        if isinstance(node, ast.ClassDef):
+            for f in node.body:
+                if isinstance(f, ast.FunctionDef) and f.name in ('from_dataset', 'from_sequence', '_get_segment_pixel_array',
+                                                                  '_check_and_cast_pixel_array'):
+                    out.append((f'{node.name}.{f.name}', f))
+    return out
+
+
+def make_alias_target(tag):
+    def build(tree):
+        entries, skipped, spans = [], [], []
+        for qual, fn in _functions(tree):
+            try:
+                a = _Alias(fn)
+                prog = a.program()
+            except Unsupported as e:
+                skipped.append((qual, str(e)))
+                continue
+            spans.append(fn)
+            conds = '; '.join(f'{i}: {c}' for i, c in enumerate(a.cond_texts) if i or a.has_copy)
+            entries.append(f'  -- {qual}({", ".join(a.params)})   conditions: {conds}\n'
+                           f'  ⟨"{qual}", {len(a.params)}, {len(a.cond_texts)}, {"true" if a.has_copy else "false"},\n'
+                           f'   [{", ".join(_lean_s(x) for x in prog)}]⟩')
+        if not entries and not skipped:
+            raise Unsupported(f'no converter found for {tag}')
+        text = (f'/-- alias-flow programs extracted from the converters of `{tag}` -/\n'
+                f'def alias_{tag} : List Aliasing.Entry := [\n' + ',\n'.join(entries) + '\n]\n\n'
+                f'/-- converters of `{tag}` the extractor could not abstract (carried by the correspondence only) -/\n'
+                f'def aliasSkipped_{tag} : List String := [' + ', '.join(f'"{q}"' for q, _ in skipped) + ']')
+        return text, span_sha(spans) + hashlib.sha256(repr(skipped).encode()).hexdigest()[:8]
+    return build
+
+
+ALIAS_FILES = {'content': 'content.py', 'seg_content': 'seg/content.py', 'seg_sop': 'seg/sop.py', 'ann_content': 'ann/content.py',
+               'ann_sop': 'ann/sop.py', 'ko_content': 'ko/content.py', 'ko_sop': 'ko/sop.py', 'sr_coding': 'sr/coding.py',
+               'sr_content': 'sr/content.py', 'sr_sop': 'sr/sop.py', 'sr_value_types': 'sr/value_types.py',
+               'sr_templates': 'sr/templates.py', 'image': 'image.py'}
+for _tag, _file in ALIAS_FILES.items():
+    TARGETS[f'T20alias_{_tag}'] = {'file': _file, 'build': make_alias_target(_tag), 'imports': ['HdVerif.Model.Aliasing']}
